@@ -265,3 +265,38 @@ Theorem upper_power_of_two_outside_domain :
   upper_power_of_two 0 = 0 /\ upper_power_of_two (2 ^ 63 + 1) = 0.
 Proof. exact upper_power_of_two_wraps. Qed.
 Print Assumptions upper_power_of_two_outside_domain.
+
+(** ** Text start distribution (makePSFromTXT, src/PS/PhaseSpaceFactory.cpp): the deposit
+    [ps[0][x][y] += ...] of every particle the reader accepts - for every pair of [lround]
+    results, i.e. for every file content - stays inside the 1 x n x n array.  The declared type of
+    the coordinate variables, the guard and the subscripts are generated from the source
+    (Gen_TxtReader); with [meshindex_t] coordinates a particle left of / below the grid wraps
+    around and fails the upper-bound guard. *)
+From Inovesa Require Import Model.TxtReader Proofs.TxtReaderP Gen.Gen_TxtReader Proofs.TxtReaderGenP.
+
+Theorem txt_deposit_in_bounds :
+  forall n vx vy i,
+    deposit txt_x_kind txt_y_kind txt_guard txt_index n vx vy = Some i -> in_array 1 n i.
+Proof. exact gen_deposit_in_bounds. Qed.
+Print Assumptions txt_deposit_in_bounds.
+
+Theorem txt_deposit_flat_offset_in_bounds :
+  forall n vx vy b x y, (0 < n)%Z ->
+    deposit txt_x_kind txt_y_kind txt_guard txt_index n vx vy = Some (b, x, y) ->
+    (0 <= (b * n + x) * n + y < 1 * n * n)%Z.
+Proof. exact gen_deposit_flat_in_bounds. Qed.
+Print Assumptions txt_deposit_flat_offset_in_bounds.
+
+(** the same reader with signed coordinate variables is refuted (why the declared type matters) *)
+Theorem txt_deposit_signed_variant_refuted :
+  exists vx vy i, deposit CS64 CS64 (fun x y n => (x <? n)%Z && (y <? n)%Z)%bool (fun x y => (0%Z, x, y)) 32 vx vy = Some i
+                  /\ ~ in_array 1 32 i.
+Proof. exact signed_variant_out_of_bounds. Qed.
+Print Assumptions txt_deposit_signed_variant_refuted.
+
+(** non-vacuity: particles that are deposited, and one left of the grid that is skipped *)
+Example txt_deposit_example :
+  deposit txt_x_kind txt_y_kind txt_guard txt_index 32 5 31 = Some (0, 5, 31)%Z /\
+  deposit txt_x_kind txt_y_kind txt_guard txt_index 32 (-1) 3 = None /\
+  deposit txt_x_kind txt_y_kind txt_guard txt_index 32 32 3 = None.
+Proof. vm_compute. repeat split; reflexivity. Qed.
